@@ -17,10 +17,17 @@ circle centre -> hand-over) under ALL interleavings of the repetition threads (`
 `FlexModel/Fac/DenmRep.lean`), tied to the source by `repetition_message_tied : … := by decide` over the regenerated
 facts "the message object handed over in a repetition is local to that repetition"; `shared_message_witness` is seeded
 change C17-m5 (one `self.new_denm` refilled by every repetition of every event).
+
+Round 5: WHERE the request's position is copied (`request_position_fixed_at_request`: caller's thread, before the
+event thread exists - any thread-start latency, any writes of the caller; tied by `request_snapshot_tied`; seeded change
+C17-m7 = `late_snapshot_witness`) and HOW a lock around the hand-over is released (`failed_handover_blocks_nobody`: a
+failing repetition leaves nothing locked behind, whatever the faults and the order of the events' repetitions; tied by
+`lock_discipline_tied`; seeded change C17-m9 = `bare_lock_witness`).  Model `FlexModel/Fac/DenmReq.lean`.
 -/
 import FlexModel.Fac.DenmLemmas
 import FlexModel.Fac.DenmConc
 import FlexModel.Fac.DenmRepLemmas
+import FlexModel.Fac.DenmReq
 
 namespace Props.C17
 open FlexModel.Fac.Denm
@@ -387,6 +394,90 @@ theorem shared_message_witness :
     (Rep.run .perRepetition evs sched).out.head? = some ⟨0, ⟨4242, 0⟩, ⟨413870000, 21120000⟩, ⟨413870000, 21120000⟩⟩ ∧
     (Rep.run .perEvent evs sched).out.head? = some ⟨0, ⟨4242, 0⟩, ⟨413870000, 21120000⟩, ⟨413870000, 21120000⟩⟩ := by
   decide
+
+/-! ## Round 5: where the request is copied, how a lock around the hand-over is released -/
+
+open FlexModel.Fac.Denm.Req in
+/-- **regenerated structural fact** (`harness/gen_denm.py analyse_request`): the private copy of the request's mutable
+    `event_position` is taken in `request_denm_sending`, i.e. on the CALLER's thread, in a statement before the one that
+    creates / starts the event thread, and the thread is given the copy.  Moving the copy into the event thread
+    (seeded change C17-m7: first statement of `trigger_denm_messages`) makes this `decide` fail. -/
+theorem request_snapshot_tied : Generated.Denm.snapshotSite = 0 ∧ sourceSite = SnapSite.caller := by decide
+
+open FlexModel.Fac.Denm.Req in
+/-- **the event position is the one of the request, whatever the caller does afterwards and however late the event
+    thread starts**: for every history after `request_denm_sending` has returned - the application overwriting its
+    dictionary any number of times at any point (in particular BEFORE the event thread has executed its first
+    statement), the thread starting after any latency, any number of repetitions - every DENM handed over carries the
+    position the dictionary held when the request was made. -/
+theorem request_position_fixed_at_request (p0 : Pos) (ops : List Op) :
+    ∀ p ∈ (Req.run sourceSite p0 ops).out, p = p0 := by
+  rw [request_snapshot_tied.2]
+  exact (caller_inv p0 ops).2
+
+open FlexModel.Fac.Denm.Req in
+/-- non-vacuity: the caller re-uses its dictionary before the thread runs and again between repetitions; three DENMs,
+    all at the requested position -/
+example :
+    (Req.run sourceSite ⟨413851000, 21734000⟩
+      [.write ⟨-338688000, -584173000⟩, .first, .rep, .write ⟨1, 2⟩, .rep, .rep]).out =
+      [⟨413851000, 21734000⟩, ⟨413851000, 21734000⟩, ⟨413851000, 21734000⟩] := by decide
+
+open FlexModel.Fac.Denm.Req in
+/-- seeded change C17-m7 as a witness (copy taken by the first statement of the event thread): a write in the
+    thread-start latency window relocates EVERY DENM of the event, the first one included. -/
+theorem late_snapshot_witness :
+    (Req.run .threadFirst ⟨413851000, 21734000⟩ [.write ⟨-338688000, -584173000⟩, .first, .rep, .rep]).out =
+      [⟨-338688000, -584173000⟩, ⟨-338688000, -584173000⟩] := by decide
+
+open FlexModel.Fac.Denm.Req in
+/-- … and what still holds with the late copy: histories in which the caller leaves its dictionary alone until the
+    thread has run its first statement (`quietStart`) - which is why writes BETWEEN repetitions never showed it. -/
+theorem late_snapshot_partial (p0 : Pos) (ops : List Op) (h : quietStart ops = true) :
+    ∀ p ∈ (Req.run .threadFirst p0 ops).out, p = p0 := by
+  -- leading `rep`s before `first` are no-ops; `first` copies `p0`; from then on `snap_stable`
+  suffices hgen : ∀ (ops : List Op) (s : S), quietStart ops = true → s.dict = p0 → s.started = false → s.out = [] →
+      ∀ p ∈ (ops.foldl (step .threadFirst) s).out, p = p0 by
+    exact hgen ops _ h rfl rfl rfl
+  intro ops
+  induction ops with
+  | nil => intro s _ _ _ ho; simp [ho]
+  | cons op rest ih =>
+    intro s hq hd hst ho
+    simp only [List.foldl_cons]
+    cases op with
+    | write p => simp [quietStart] at hq
+    | rep => exact ih _ (by simpa [quietStart] using hq) (by simpa [step, hst] using hd) (by simp [step, hst]) (by simp [step, hst, ho])
+    | first =>
+      exact (snap_stable .threadFirst p0 rest _ (by simp [step, hst, hd]) (by intro _; simp [step, hst])
+        (by simp [step, hst, ho])).2
+
+open FlexModel.Fac.Denm.Req in
+/-- **regenerated structural fact**: no bare `acquire()` / `release()` call anywhere in the transmission management -
+    a lock is only ever taken with `with`, so it is released on every exit of the section, exceptions included. -/
+theorem lock_discipline_tied : Generated.Denm.bareLockCalls = 0 ∧ sourceLockUse = LockUse.viaWith := by decide
+
+open FlexModel.Fac.Denm.Req in
+/-- **a failed hand-over blocks nobody**: any number of events, their repetitions entering `transmit_denm` in ANY global
+    order, the coder / the transport raising at ANY of them (the loop survives that: `count_under_faults`): no
+    repetition ever blocks, no lock stays held, and exactly the encodable repetitions reach the transport layer, in
+    that order.  (On a tree without any lock around the hand-over this is the model of `Rep`; the statement says that
+    introducing one via `with` keeps it so.) -/
+theorem failed_handover_blocks_nobody (reps : List (Nat × Nat × Fault)) :
+    (txRun sourceLockUse reps).blocked = [] ∧ (txRun sourceLockUse reps).held = false ∧
+    (txRun sourceLockUse reps).handed = handedSpec reps := by
+  rw [lock_discipline_tied.2, txRun_with]
+  exact ⟨rfl, rfl, rfl⟩
+
+open FlexModel.Fac.Denm.Req in
+/-- seeded change C17-m9 as a witness (bare `acquire()` … `release()` around encode + hand-over): the transport raises
+    ONCE, at repetition 2 of event 0 - the next repetition of event 0, a second event and a one-shot warning (event 2)
+    all block for ever; with `with` the same history hands over all six. -/
+theorem bare_lock_witness :
+    let reps : List (Nat × Nat × Fault) :=
+      [(0, 0, .ok), (0, 1, .ok), (0, 2, .transport), (0, 3, .ok), (1, 0, .ok), (2, 0, .ok)]
+    (txRun .bare reps).handed = [(0, 0), (0, 1), (0, 2)] ∧ (txRun .bare reps).blocked = [(0, 3), (1, 0), (2, 0)] ∧
+    (txRun .viaWith reps).handed.length = 6 ∧ (txRun .viaWith reps).blocked = [] := by decide
 
 /-! ## Degenerate intervals (outside the property's range 100…10000 ms): explicit branches -/
 
